@@ -497,3 +497,35 @@ def r_function_predicate(ctx: Ctx, rule: str) -> None:
         accepted = g.exit in reach([g.entry], ef)
         rep.ob(rule, "a function that is no coroutine function cannot pass the check", not accepted, func=f, construct=f"{f.short}({pname}=<not a coroutine function>)",
                detail="" if not accepted else "some path returns normally although iscoroutinefunction(function) is false: the predicate in use accepts more than coroutine functions")
+
+
+_PREDICATE_HOME = {"iscoroutine": "asyncio.coroutines.iscoroutine", "iscoroutinefunction": "asyncio.coroutines.iscoroutinefunction"}
+
+
+def r_external_predicates(ctx: Ctx, rule: str):
+    """EXTERNAL-PREDICATES.  What counts as a coroutine / a coroutine function is decided by asyncio's own predicates - the ones the
+    event loop applies when it is handed the object: `inspect.iscoroutine` knows native coroutine objects only, so a coroutine the
+    loop would run (a collections.abc.Coroutine, a generator-based one) is rejected - inside the spawner, after the request was
+    accepted - and `inspect.iscoroutinefunction` / asyncio's differ on marked and wrapped functions."""
+    rep = ctx.rep
+    rep.rule(rule, "EXTERNAL-PREDICATES: every call of `iscoroutine` / `iscoroutinefunction` in the package resolves to asyncio.coroutines' function "
+                   "(not inspect's, not a home-made one): acceptance (iscoroutinefunction at the entry point) and the check inside the spawner "
+                   "(iscoroutine in _check_start) then agree with what create_task accepts")
+    n = 0
+    for f in ctx.prog.every_function():
+        sc = ctx.an.scope(f)
+        for x in sc._own_nodes():
+            if not isinstance(x, ast.Call):
+                continue
+            nm = x.func.id if isinstance(x.func, ast.Name) else (x.func.attr if isinstance(x.func, ast.Attribute) else None)
+            if nm not in _PREDICATE_HOME:
+                continue
+            try:
+                cal = sc.callee(x)
+            except Exception:
+                cal = None
+            q = getattr(cal, "name", None)
+            n += 1
+            ok = cal is not None and cal.kind == "ext" and ctx.prog.canon(q) in (_PREDICATE_HOME[nm], "asyncio." + nm)
+            rep.ob(rule, f"`{nm}` is asyncio's predicate", ok, func=f, construct=x, detail=f"resolves to {q}")
+    rep.floor(rule, "calls of the coroutine predicates", n, 4)
